@@ -11,18 +11,21 @@ package ext
 //@   ensures[!C02] len(p) == 8 ==> result1 == nil && (forall i :: 0 <= i && i < 8 ==> result0[i] == p[i])
 //@   ensures[!C02] len(p) != 8 && len(p) != 0 ==> result1 != nil
 //@   ensures[!C02] len(p) == 0 ==> result1 == nil && (forall i :: 0 <= i && i < 8 ==> result0[i] == 0)
+//@   noalloc[C17]
 
 //@ func Parse128
 //@   safety[C02]
 //@   ensures[!C02] len(b) == 16 ==> result1 == nil && (forall i :: 0 <= i && i < 16 ==> result0[i] == b[i])
 //@   ensures[!C02] len(b) != 16 && len(b) != 0 ==> result1 != nil
 //@   ensures[!C02] len(b) == 0 ==> result1 == nil && (forall i :: 0 <= i && i < 16 ==> result0[i] == 0)
+//@   noalloc[C17]
 
 //@ func Parse256
 //@   safety[C02]
 //@   ensures[!C02] len(b) == 32 ==> result1 == nil && (forall i :: 0 <= i && i < 32 ==> result0[i] == b[i])
 //@   ensures[!C02] len(b) != 32 && len(b) != 0 ==> result1 != nil
 //@   ensures[!C02] len(b) == 0 ==> result1 == nil && (forall i :: 0 <= i && i < 32 ==> result0[i] == 0)
+//@   noalloc[C17]
 
 //@ func (Bin64).MarshalTo
 //@   safety[C08]
@@ -30,6 +33,7 @@ package ext
 //@   modifies uint8 at buf
 //@   ensures forall i :: 0 <= i && i < 8 ==> buf[i] == b[i]
 //@   ensures forall j :: (j < lo(buf) || j >= lo(buf) + 8) ==> mem(buf)[j] == old(mem(buf))[j]
+//@   noalloc[C17]
 
 //@ func (Bin128).MarshalTo
 //@   safety[C08]
@@ -37,6 +41,7 @@ package ext
 //@   modifies uint8 at buf
 //@   ensures forall i :: 0 <= i && i < 16 ==> buf[i] == b[i]
 //@   ensures forall j :: (j < lo(buf) || j >= lo(buf) + 16) ==> mem(buf)[j] == old(mem(buf))[j]
+//@   noalloc[C17]
 
 //@ func (Bin256).MarshalTo
 //@   safety[C08]
@@ -44,3 +49,4 @@ package ext
 //@   modifies uint8 at buf
 //@   ensures forall i :: 0 <= i && i < 32 ==> buf[i] == b[i]
 //@   ensures forall j :: (j < lo(buf) || j >= lo(buf) + 32) ==> mem(buf)[j] == old(mem(buf))[j]
+//@   noalloc[C17]
